@@ -241,7 +241,7 @@ def shard_inputs(ctx, max_examples):
 
 def shards(tier, seed):
     big = tier == "thorough"
-    return [(f"inputs{i}", "shard_inputs", {"max_examples": 5000 if big else 300}) for i in range(8)]
+    return [(f"inputs{i}", "shard_inputs", {"max_examples": 50000 if big else 300}) for i in range(8)]
 
 
 def replay(entry):
